@@ -121,7 +121,8 @@ def dateSecOf (ts : Int) : Int := ts.tdiv 1000000000
 
 /-! ## OTLP documents -/
 
-/-- `common.v1.AnyValue` (oneof): `unset` = no member set. The double is carried by its IEEE bits. -/
+/-- `common.v1.AnyValue` (oneof): `unset` = no member set; `nilp` = there is no `AnyValue` at all (a `KeyValue` decoded
+    without its `value` field has a nil pointer). The double is carried by its IEEE bits. -/
 inductive AnyValue where
   | str (s : Str)
   | bool (b : Bool)
@@ -131,6 +132,7 @@ inductive AnyValue where
   | kvl (kvs : List (Str × AnyValue))
   | bytes (b : Bytes)
   | unset
+  | nilp
   deriving Repr, Inhabited
 
 abbrev KV := Str × AnyValue
@@ -166,6 +168,7 @@ def flattenVal (key : Str) : AnyValue → List (Str × Str)
   | .kvl kvs => flattenKvs (key ++ [46]) kvs
   | .bytes _ => []
   | .unset => []
+  | .nilp => []
 def flattenArr (pfx : Str) (i : Nat) : List AnyValue → List (Str × Str)
   | [] => []
   | v :: vs => flattenVal (pfx ++ natDigits i) v ++ flattenArr pfx (i + 1) vs
@@ -585,13 +588,35 @@ def otlpArgs (c : Cfg) (plen : OSpan → Nat) (resAttrs : List KV) (span : OSpan
   ⟨span.traceId, span.spanId, wrap64 span.startNs, wrap64 ((span.endNs + 18446744073709551616 - span.startNs) % 18446744073709551616),
    span.parentSpanId, span.name, svc, .otlp pbLead stored, plen stored, m2⟩
 
+/-- the first loop of `otlpGetServiceNames` reads `val.Value.Value` of the last attribute under each name it reaches
+    (it leaves at its first hit when it has a `break`): an attribute without a `Value` faults there — a nil-pointer
+    panic in the parser goroutine, tamed into an error response: the request is refused -/
+def localFault (first : Bool) (attrs : List KV) : List Str → Bool
+  | [] => false
+  | n :: rest =>
+    match lookupLast attrs n with
+    | some .nilp => true
+    | some (.str s) => if s ≠ [] ∧ first = true then false else localFault first attrs rest
+    | _ => localFault first attrs rest
+
+/-- the `remote` loop has no `break`: it reaches all four names -/
+def remoteFault (attrs : List KV) : Bool :=
+  [ascii "service.name", ascii "faas.name", ascii "k8s.deployment.name", ascii "process.executable.name"].any
+    (fun n => match lookupLast attrs n with | some .nilp => true | _ => false)
+
+def otlpFault (c : Cfg) (attrs : List KV) : Bool := localFault c.writerFirst attrs c.writerNames || remoteFault attrs
+
+/-- the body of the innermost loop of `Decode` with its fault -/
+def otlpDec (c : Cfg) (plen : OSpan → Nat) (_ : Unit) (r : List KV × OSpan) : Except Reject (Unit × Args) :=
+  if otlpFault c (r.2.attrs ++ r.1) then .error .reject else .ok ((), otlpArgs c plen r.1 r.2)
+
 /-- all spans of a request with their resource attributes, in the order of the three nested loops -/
 def otlpSpans (td : TracesData) : List (List KV × OSpan) :=
   td.flatMap (fun rs => rs.scopes.flatMap (fun sc => sc.map (fun s => (rs.resourceAttrs, s))))
 
 /-- `UnmarshalOTLPV2` on a decoded `TracesData` -/
 def writeOTLP (c : Cfg) (plen : OSpan → Nat) (td : TracesData) : Outcome :=
-  runSpans c c.otlpType (fun (_ : Unit) (r : List KV × OSpan) => .ok ((), otlpArgs c plen r.1 r.2)) () {} (otlpSpans td)
+  runSpans c c.otlpType (otlpDec c plen) () {} (otlpSpans td)
 
 /-! ## reader -/
 
